@@ -2,6 +2,7 @@ package sim
 
 import (
 	"fmt"
+	"runtime"
 	"runtime/debug"
 	"strings"
 	"testing"
@@ -40,13 +41,19 @@ func Bubble(t *testing.T, f func()) (v *Violation) {
 func Wait() { synctest.Wait() }
 
 func goroutineDump() string {
-	buf := make([]byte, 1<<16)
-	n := 0
-	for {
-		n = copy(buf, debug.Stack())
-		break
+	buf := make([]byte, 1<<20)
+	n := runtime.Stack(buf, true)
+	// keep only goroutines that belong to a bubble and are blocked
+	var keep []string
+	for _, g := range strings.Split(string(buf[:n]), "\n\n") {
+		if strings.Contains(g, "synctest bubble") || strings.Contains(g, "(durable)") {
+			keep = append(keep, g)
+		}
 	}
-	return string(buf[:n])
+	if len(keep) == 0 {
+		return string(buf[:min(n, 20000)])
+	}
+	return strings.Join(keep, "\n\n")
 }
 
 // Recover runs f and converts a panic into a violation (class "panic" when a
